@@ -133,6 +133,23 @@ Definition setstate (T : copytable) (h : heap) (a : addr) : heap :=
       end
   end.
 
+(* the state of the reconstructed object a' is filled entry by entry with deep copies *)
+Fixpoint dc_items (rec : heap -> memo -> value -> heap * memo * value) (a' : addr)
+         (h : heap) (m : memo) (l : list (value * sval)) {struct l} : heap * memo :=
+  match l with
+  | [] => (h, m)
+  | (k, sv) :: r =>
+      let '(h2, m2, k') := rec h m k in
+      let '(h3, m3, v') :=
+        match sv with
+        | SV v0 => rec h2 m2 v0
+        | SEmptySet => let '(hh, s) := new_cell h2 KSet in (hh, m2, s)
+        | SEmptyList => let '(hh, s) := new_cell h2 KList in (hh, m2, s)
+        | SGpr v0 => let '(hh, g) := gpr_rebuild h2 v0 in (hh, m2, g)
+        end in
+      dc_items rec a' (push h3 a' k' v') m3 r
+  end.
+
 Fixpoint dc (T : copytable) (fuel : nat) (h : heap) (m : memo) (v : value) {struct fuel} : heap * memo * value :=
   match fuel with
   | O => (h, m, At "<fuel>")
@@ -149,21 +166,7 @@ Fixpoint dc (T : copytable) (fuel : nat) (h : heap) (m : memo) (v : value) {stru
                   let a' := List.length h in
                   let h1 := h ++ [mkCell (ckind c) []] in
                   let m1 := (a, a') :: m in
-                  let fix items (h : heap) (m : memo) (l : list (value * sval)) {struct l} : heap * memo :=
-                    match l with
-                    | [] => (h, m)
-                    | (k, sv) :: r =>
-                        let '(h2, m2, k') := dc T f h m k in
-                        let '(h3, m3, v') :=
-                          match sv with
-                          | SV v0 => dc T f h2 m2 v0
-                          | SEmptySet => let '(hh, s) := new_cell h2 KSet in (hh, m2, s)
-                          | SEmptyList => let '(hh, s) := new_cell h2 KList in (hh, m2, s)
-                          | SGpr v0 => let '(hh, g) := gpr_rebuild h2 v0 in (hh, m2, g)
-                          end in
-                        items (push h3 a' k' v') m3 r
-                    end in
-                  let '(h2, m2) := items h1 m1 (getstate c) in
+                  let '(h2, m2) := dc_items (dc T f) a' h1 m1 (getstate c) in
                   (setstate T h2 a', m2, Ref a')
               end
           end
